@@ -12,6 +12,8 @@ import z3
 # a scoreboard slot: None (free) or "something" (flag word or Task)
 Slot = Opt(Ref("SlotVal"))
 
+fields_of("SlotVal", is_task=Bool)      # a slot value is a Task (a booking) or a marker word (leave, off-shift)
+klass("SlotVal", isinstance={"Task": "self.is_task"})
 fields_of("Scoreboard", startDate=DT, endDate=DT, resolution=Int, size=Int, sb=List(Slot))
 fields_of("TimeInterval", start=DT, end=DT)
 
